@@ -243,6 +243,8 @@ def run(repo='/repo', tier='quick'):
     from . import mirror
     mirror.run(db, res, 'C09.h', [('htp_conn_track_inbound_data', 'htp_conn_track_outbound_data', None), ('htp_connp_req_data_consumed', 'htp_connp_res_data_consumed', None),
                                   ('htp_req_handle_state_change', 'htp_res_handle_state_change', None)])
+    from . import errdisc
+    errdisc.run(db, res, 'C09.i')
     return res
 
 
